@@ -198,50 +198,56 @@ structure ListSt where
   list : Term := Term.empty
   seg : Text := []
 
+def ListSt.push (st : ListSt) (c : Char) : ListSt := { st with seg := c :: st.seg }
+
+/-- the `,` branch: the text after the comma is an element -/
+def listComma (pt : Text → Res Term) (st : ListSt) : Res ListSt :=
+  let s2 := trim st.seg
+  if s2.isEmpty then .fail
+  else (checkQuotes s2 st.numQuotes).bind fun _ =>
+    (pt s2).bind fun term =>
+      (linkFront term false st.list).bind fun l =>
+        .ok { st with list := l, numQuotes := 0, seg := [] }
+
+/-- the `|` branch: the text after the bar must be a variable -/
+def listBar (po : POps) (st : ListSt) : Res ListSt :=
+  if st.vbar then .fail
+  else
+    let t2 := trim st.seg
+    if t2.isEmpty then .fail
+    else (makeLogicVar po t2).bind fun v =>
+      (linkFront v true st.list).bind fun l => .ok { st with list := l, vbar := true, seg := [] }
+
+/-- the body of the loop for the character `c`; `esc` = the character before it is a backslash -/
+def listStep (po : POps) (pt : Text → Res Term) (c : Char) (esc : Bool) (st : ListSt) : Res ListSt :=
+  let eq (ch : Char) : Bool := c == ch && !esc
+  if st.openQuote then
+    (if eq '"' then .ok { st.push c with openQuote := false, numQuotes := st.numQuotes + 1 } else .ok (st.push c))
+  else if eq ']' then .ok { st.push c with square := st.square + 1 }
+  else if eq '[' then .ok { st.push c with square := st.square - 1 }
+  else if eq ')' then .ok { st.push c with round := st.round + 1 }
+  else if eq '(' then .ok { st.push c with round := st.round - 1 }
+  else if st.round == 0 && st.square == 0 then
+    if eq '"' then .ok { st.push c with openQuote := true, numQuotes := st.numQuotes + 1 }
+    else if eq ',' then listComma pt st
+    else if eq '|' then listBar po st
+    else .ok (st.push c)
+  else .ok (st.push c)
+
+/-- `if ind == 0`: the first element -/
+def listFinish (pt : Text → Res Term) (st : ListSt) : Res Term :=
+  let s2 := trim st.seg
+  if s2.isEmpty then .fail
+  else (checkQuotes s2 st.numQuotes).bind fun _ =>
+    (pt s2).bind fun term => linkFront term false st.list
+
 def listLoop (po : POps) (pt : Text → Res Term) : Text → ListSt → Res Term
   | [], _ => .panic                       -- the loop body always runs at least once (length_args ≥ 1)
   | c :: restRev, st =>
-    let esc : Bool := restRev.head? == some '\\'
-    let eq (ch : Char) : Bool := c == ch && !esc
-    -- the body: yields the new state, or an early return
-    let step : Res ListSt :=
-      if st.openQuote then
-        (if eq '"' then .ok { st with openQuote := false, numQuotes := st.numQuotes + 1, seg := c :: st.seg }
-         else .ok { st with seg := c :: st.seg })
-      else if eq ']' then .ok { st with square := st.square + 1, seg := c :: st.seg }
-      else if eq '[' then .ok { st with square := st.square - 1, seg := c :: st.seg }
-      else if eq ')' then .ok { st with round := st.round + 1, seg := c :: st.seg }
-      else if eq '(' then .ok { st with round := st.round - 1, seg := c :: st.seg }
-      else if st.round == 0 && st.square == 0 then
-        if eq '"' then .ok { st with openQuote := true, numQuotes := st.numQuotes + 1, seg := c :: st.seg }
-        else if eq ',' then
-          let s2 := trim st.seg
-          if s2.isEmpty then .fail
-          else (checkQuotes s2 st.numQuotes).bind fun _ =>
-            (pt s2).bind fun term =>
-              (linkFront term false st.list).bind fun l =>
-                .ok { st with list := l, numQuotes := 0, seg := [] }
-        else if eq '|' then
-          if st.vbar then .fail
-          else
-            let t2 := trim st.seg
-            if t2.isEmpty then .fail
-            else match makeLogicVar po t2 with
-              | .ok v => (linkFront v true st.list).bind fun l => .ok { st with list := l, vbar := true, seg := [] }
-              | .panic => .panic
-              | .oof => .oof
-              | .fail => .fail
-        else .ok { st with seg := c :: st.seg }
-      else .ok { st with seg := c :: st.seg }
-    step.bind fun st' =>
+    (listStep po pt c (restRev.head? == some '\\') st).bind fun st' =>
       match restRev with
-      | [] =>
-        -- `if ind == 0`
-        let s2 := trim st'.seg
-        if s2.isEmpty then .fail
-        else (checkQuotes s2 st'.numQuotes).bind fun _ =>
-          (pt s2).bind fun term => linkFront term false st'.list
-      | _ => listLoop po pt restRev st'
+      | [] => listFinish pt st'
+      | _ :: _ => listLoop po pt restRev st'
 
 /-- `parse_linked_list`, given the term parser for the elements. -/
 def parseLinkedListWith (po : POps) (pt : Text → Res Term) (toParse : Text) : Res Term :=
@@ -268,62 +274,68 @@ structure ArgSt where
   arg : Text := []                 -- `argument`
   terms : List Term := []          -- `term_list`
   pending : Bool := true           -- `start < length_chrs`
+  esc : Bool := false              -- the previous character was a top-level backslash: `i += 1; argument.push(chrs[i])`
+
+/-- `argument.push(ch)` -/
+def ArgSt.push (st : ArgSt) (ch : Char) : ArgSt := { st with arg := st.arg ++ [ch] }
+
+/-- the `,` branch: the argument collected so far becomes a term -/
+def argComma (mk : Text → Bool → Bool → Bool → Res Term) (rest : Text) (st : ArgSt) : Res ArgSt :=
+  let s2 := trim st.arg
+  (checkQuotes s2 st.numQuotes).bind fun _ =>
+    (mk s2 st.hasDigit (st.hasNonDigit || s2.any isWs) st.hasPeriod).bind fun t =>
+      .ok { st with numQuotes := 0, terms := st.terms ++ [t], arg := [],
+                    hasDigit := false, hasNonDigit := false, hasPeriod := false,
+                    pending := !rest.isEmpty }
+
+/-- the `+` / `-` branch -/
+def argSign (ch : Char) (rest : Text) (st : ArgSt) : ArgSt :=
+  let st1 := st.push ch
+  let nextCh := rest.head?.getD 'x'
+  let atStart := (trim st1.arg).length == 1
+  { st1 with hasNonDigit := st.hasNonDigit || (!atStart || !isDigit nextCh) }
+
+/-- the branch taken outside quotes, parentheses and brackets -/
+def argStepTop (mk : Text → Bool → Bool → Bool → Res Term) (ch : Char) (rest : Text) (st : ArgSt) : Res ArgSt :=
+  if ch == ',' then argComma mk rest st
+  else if isDigit ch then .ok { st.push ch with hasDigit := true }
+  else if ch == '+' || ch == '-' then .ok (argSign ch rest st)
+  else if ch == '.' then .ok { st.push ch with hasPeriod := true }
+  else if ch == '\\' then
+    -- escape character: the next character is taken as it is; at the end the backslash itself
+    (if rest.isEmpty then .ok (st.push ch) else .ok { st with esc := true })
+  else if ch == '"' then .ok { st.push ch with openQuote := true, numQuotes := st.numQuotes + 1 }
+  else .ok { st.push ch with hasNonDigit := st.hasNonDigit || !isWs ch }
+
+/-- one iteration of the `while` loop (`rest` = the characters after `ch`). -/
+def argStep (mk : Text → Bool → Bool → Bool → Res Term) (ch : Char) (rest : Text) (st : ArgSt) : Res ArgSt :=
+  if st.esc then .ok { st.push ch with esc := false }
+  else if st.openQuote then
+    .ok { st.push ch with openQuote := !(ch == '"'),
+                          numQuotes := if ch == '"' then st.numQuotes + 1 else st.numQuotes }
+  else if ch == '[' then .ok { st.push ch with square := st.square + 1 }
+  else if ch == ']' then .ok { st.push ch with square := st.square - 1 }
+  else if ch == '(' then .ok { st.push ch with round := st.round + 1 }
+  else if ch == ')' then .ok { st.push ch with round := st.round - 1 }
+  else if st.round == 0 && st.square == 0 then argStepTop mk ch rest st
+  else .ok (st.push ch)
+
+/-- what follows the loop: the last argument, then the bracket counts -/
+def argsFinish (mk : Text → Bool → Bool → Bool → Res Term) (st : ArgSt) : Res (List Term) :=
+  let fin : Res (List Term) :=
+    if st.pending then
+      let s2 := trim st.arg
+      (checkQuotes s2 st.numQuotes).bind fun _ =>
+        (mk s2 st.hasDigit (st.hasNonDigit || s2.any isWs) st.hasPeriod).bind fun t => .ok (st.terms ++ [t])
+    else .ok st.terms
+  fin.bind fun ts =>
+    if st.round != 0 then .fail
+    else if st.square != 0 then .fail
+    else .ok ts
 
 def argsLoop (mk : Text → Bool → Bool → Bool → Res Term) : Text → ArgSt → Res (List Term)
-  | [], st =>
-    let fin : Res (List Term) :=
-      if st.pending then
-        let s2 := trim st.arg
-        (checkQuotes s2 st.numQuotes).bind fun _ =>
-          (mk s2 st.hasDigit st.hasNonDigit st.hasPeriod).bind fun t => .ok (st.terms ++ [t])
-      else .ok st.terms
-    fin.bind fun ts =>
-      if st.round != 0 then .fail
-      else if st.square != 0 then .fail
-      else .ok ts
-  | ch :: rest, st =>
-    if st.openQuote then
-      argsLoop mk rest { st with arg := st.arg ++ [ch],
-                                 openQuote := !(ch == '"'),
-                                 numQuotes := if ch == '"' then st.numQuotes + 1 else st.numQuotes }
-    else if ch == '[' then argsLoop mk rest { st with arg := st.arg ++ [ch], square := st.square + 1 }
-    else if ch == ']' then argsLoop mk rest { st with arg := st.arg ++ [ch], square := st.square - 1 }
-    else if ch == '(' then argsLoop mk rest { st with arg := st.arg ++ [ch], round := st.round + 1 }
-    else if ch == ')' then argsLoop mk rest { st with arg := st.arg ++ [ch], round := st.round - 1 }
-    else if st.round == 0 && st.square == 0 then
-      if ch == ',' then
-        let s2 := trim st.arg
-        match checkQuotes s2 st.numQuotes with
-        | .ok _ =>
-          match mk s2 st.hasDigit st.hasNonDigit st.hasPeriod with
-          | .ok t =>
-            argsLoop mk rest { st with numQuotes := 0, terms := st.terms ++ [t], arg := [],
-                                       hasDigit := false, hasNonDigit := false, hasPeriod := false,
-                                       pending := !rest.isEmpty }
-          | .fail => .fail
-          | .panic => .panic
-          | .oof => .oof
-        | .fail => .fail
-        | .panic => .panic
-        | .oof => .oof
-      else if isDigit ch then argsLoop mk rest { st with arg := st.arg ++ [ch], hasDigit := true }
-      else if ch == '+' || ch == '-' then
-        let arg' := st.arg ++ [ch]
-        let nextCh := rest.head?.getD 'x'
-        let atStart := (trim arg').length == 1
-        argsLoop mk rest { st with arg := arg',
-                                   hasNonDigit := st.hasNonDigit || (!atStart || !isDigit nextCh) }
-      else if ch == '.' then argsLoop mk rest { st with arg := st.arg ++ [ch], hasPeriod := true }
-      else if ch == '\\' then
-        match rest with
-        | d :: rest' => argsLoop mk rest' { st with arg := st.arg ++ [d] }
-        | [] => argsLoop mk [] { st with arg := st.arg ++ [ch] }
-      else if ch == '"' then
-        argsLoop mk rest { st with arg := st.arg ++ [ch], openQuote := true, numQuotes := st.numQuotes + 1 }
-      else
-        argsLoop mk rest { st with arg := st.arg ++ [ch],
-                                   hasNonDigit := st.hasNonDigit || decide (ch.toNat > ' '.toNat) }
-    else argsLoop mk rest { st with arg := st.arg ++ [ch] }
+  | [], st => argsFinish mk st
+  | ch :: rest, st => (argStep mk ch rest st).bind fun st' => argsLoop mk rest st'
 
 /-- `parse_arguments`, given `make_term`. -/
 def parseArgumentsWith (mk : Text → Bool → Bool → Bool → Res Term) (toParse : Text) : Res (List Term) :=
@@ -374,17 +386,22 @@ def parseFunctionWith (pa : Text → Res (List Term)) (toParse : Text) : Res Ter
 
 def startsWith (s : Text) (p : String) : Bool := p.toList.isPrefixOf s
 
+/-- how one character changes `(has_digit, has_non_digit, has_period)`; `lead` = the character is a
+    sign in front of a number (first character, a digit follows) -/
+def flagStep (ch : Char) (lead : Bool) (fl : Bool × Bool × Bool) : Bool × Bool × Bool :=
+  if isDigit ch then (true, fl.2.1, fl.2.2)
+  else if ch == '.' then (fl.1, fl.2.1, true)
+  else if (ch == '+' || ch == '-') && lead then fl
+  else (fl.1, true, fl.2.2)
+
+def flagLoop (signOK : Bool) : Text → Nat → Bool × Bool × Bool → Bool × Bool × Bool
+  | [], _, acc => acc
+  | ch :: rest, i, acc => flagLoop signOK rest (i + 1) (flagStep ch (i == 0 && signOK) acc)
+
 /-- the flag loop of `parse_term` (`parse_terms.rs:361-372`). -/
 def termFlags (chrs : Text) : Bool × Bool × Bool :=
   let signOK : Bool := chrs.length > 1 && isDigit ((chrs.drop 1).head?.getD 'x')
-  let rec go : Text → Nat → Bool × Bool × Bool → Bool × Bool × Bool
-    | [], _, acc => acc
-    | ch :: rest, i, (hd, hnd, hp) =>
-      if isDigit ch then go rest (i + 1) (true, hnd, hp)
-      else if ch == '.' then go rest (i + 1) (hd, hnd, true)
-      else if (ch == '+' || ch == '-') && i == 0 && signOK then go rest (i + 1) (hd, hnd, hp)
-      else go rest (i + 1) (hd, true, hp)
-  go chrs 0 (false, false, false)
+  flagLoop signOK chrs 0 (false, false, false)
 
 mutual
 /-- `parse_term` -/
